@@ -373,3 +373,117 @@ Section Analyses.
   Lemma xan_list_good l : list_good l.
   Proof. apply thread_good. apply Forall_forall. intros a _. apply xan_good. Qed.
 End Analyses.
+
+(* ------------------------------------------------------------------------------------------ *)
+(* controls and options                                                                        *)
+(* ------------------------------------------------------------------------------------------ *)
+Lemma xsave_ok t o : xsave t = Ok o -> starg_ok t o = true.
+Proof.
+  destruct t as [m|s|l|s|l]; simpl; intros H; try (inversion H; subst; simpl; apply String.eqb_refl).
+  destruct m; inversion H; reflexivity.
+Qed.
+Lemma xsave_total t : t <> TMode MSelected -> exists o, xsave t = Ok o.
+Proof. destruct t as [m|s|l|s|l]; simpl; intros H; eauto. destruct m; eauto. congruence. Qed.
+Lemma xpnum_ok v p : xpnum v = Ok p -> pval_num_ok v p = true.
+Proof.
+  destruct v; simpl; intros H.
+  - inv_bind H. inversion H; subst. apply dec_eqb_refl.
+  - inversion H; subst. apply String.eqb_refl.
+Qed.
+Lemma xctrl_ok c o : xctrl c = Ok o -> ctrl_ok c o = true.
+Proof.
+  destruct c; simpl; intros H.
+  - inversion H; subst. apply String.eqb_refl.
+  - inversion H; subst. simpl. rewrite !String.eqb_refl. reflexivity.
+  - apply xsave_ok. assumption.
+  - inversion H; subst. simpl. rewrite !String.eqb_refl. reflexivity.
+  - inv_bind H. inversion H; subst. simpl. rewrite String.eqb_refl, (xpnum_ok _ _ E). reflexivity.
+  - inversion H; subst. apply String.eqb_refl.
+Qed.
+Lemma xoval_ok v p : xoval v = Ok p -> oval_ok v p = true.
+Proof.
+  destruct v; simpl; intros H.
+  - inversion H; subst. apply Z.eqb_refl.
+  - destruct x; simpl in *.
+    + inv_bind H. inversion H; subst. apply dec_eqb_refl.
+    + inversion H; subst. apply String.eqb_refl.
+Qed.
+
+(* export of one option entry *)
+Definition xopt (x : string * oval) : result (string * pval) := p <- xoval (snd x) ;; Ok (fst x, p).
+
+(* ------------------------------------------------------------------------------------------ *)
+(* the attribute list: partition into three lists, each the export of the attributes of its kind *)
+(* ------------------------------------------------------------------------------------------ *)
+Lemma xattrs_partition l : forall k os ans cs, xattrs l k = Ok (os, ans, cs) ->
+  (exists k', thread xan (ans_of l) k = Ok (ans, k')) /\
+  traverse xctrl (ctrls_of l) = Ok cs /\
+  traverse xopt (opts_of l) = Ok os.
+Proof.
+  induction l as [|a l IH]; intros k os ans cs H.
+  - simpl in H. inversion H; subst. simpl. split; [exists k; reflexivity|split; reflexivity].
+  - destruct a as [a|c|n v]; simpl in H.
+    + inv_bind H. inv_bind H. destruct r0 as [[os' ans'] cs']. inversion H; subst.
+      destruct (IH _ _ _ _ E0) as [[k' A] [B C]]. split; [|split; assumption].
+      exists k'. change (ans_of (AtAn a :: l)) with (a :: ans_of l). rewrite thread_cons, E. simpl. rewrite A. reflexivity.
+    + inv_bind H. inv_bind H. destruct r0 as [[os' ans'] cs']. inversion H; subst.
+      destruct (IH _ _ _ _ E0) as [A [B C]]. split; [assumption|split; [|assumption]].
+      change (ctrls_of (AtCtrl c :: l)) with (c :: ctrls_of l). simpl. rewrite E. simpl. rewrite B. reflexivity.
+    + inv_bind H. inv_bind H. destruct r0 as [[os' ans'] cs']. inversion H; subst.
+      destruct (IH _ _ _ _ E0) as [A [B C]]. split; [assumption|split; [assumption|]].
+      change (opts_of (AtOpt n v :: l)) with ((n, v) :: opts_of l). simpl. unfold xopt at 1. simpl. rewrite E. simpl. rewrite C. reflexivity.
+Qed.
+
+(* and conversely: when every attribute of each kind is exportable, so is the list *)
+Lemma xattrs_complete l : forall k ans k' cs os,
+  thread xan (ans_of l) k = Ok (ans, k') -> traverse xctrl (ctrls_of l) = Ok cs -> traverse xopt (opts_of l) = Ok os ->
+  xattrs l k = Ok (os, ans, cs).
+Proof.
+  induction l as [|a l IH]; intros k ans k' cs os A B C.
+  - simpl in *. inversion A; inversion B; inversion C; subst. reflexivity.
+  - destruct a as [a|c|n v].
+    + change (ans_of (AtAn a :: l)) with (a :: ans_of l) in A. rewrite thread_cons in A. inv_bind A. inv_bind A.
+      inversion A; subst. destruct r0 as [ans' kk]. simpl in *. rewrite E. simpl. rewrite (IH _ _ _ _ _ E0 B C). reflexivity.
+    + change (ctrls_of (AtCtrl c :: l)) with (c :: ctrls_of l) in B. simpl in B. inv_bind B. inv_bind B.
+      inversion B; subst. simpl. rewrite E. simpl. rewrite (IH _ _ _ _ _ A E0 C). reflexivity.
+    + change (opts_of (AtOpt n v :: l)) with ((n, v) :: opts_of l) in C. simpl in C. inv_bind C. inv_bind C.
+      inversion C; subst. unfold xopt in E. simpl in E. inv_bind E. inversion E; subst. simpl. rewrite E1. simpl.
+      rewrite (IH _ _ _ _ _ A B E0). reflexivity.
+Qed.
+
+Lemma thread_length {A B S} (f : A -> S -> result (B * S)) l : forall s r, thread f l s = Ok r -> length (fst r) = length l.
+Proof.
+  induction l as [|x l IH]; intros s r H.
+  - simpl in H. inversion H; reflexivity.
+  - rewrite thread_cons in H. inv_bind H. inv_bind H. inversion H; subst. simpl. f_equal. eapply IH. eassumption.
+Qed.
+
+Lemma traverse_forall2b {A B} (f : A -> result B) (ok : A -> B -> bool) :
+  (forall a b, f a = Ok b -> ok a b = true) -> forall l l', traverse f l = Ok l' -> forall2b ok l l' = true.
+Proof.
+  intros Hf. induction l as [|x l IH]; simpl; intros l' H; [inversion H; reflexivity|].
+  inv_bind H. inv_bind H. inversion H; subst. simpl. rewrite (Hf _ _ E), (IH _ E0). reflexivity.
+Qed.
+
+Lemma xopt_ok x o : xopt x = Ok o -> opt_ok x o = true.
+Proof.
+  unfold xopt, opt_ok. intros H. inv_bind H. inversion H; subst. simpl. rewrite String.eqb_refl, (xoval_ok _ _ E). reflexivity.
+Qed.
+
+Section Attrs.
+  Variable frel : Z -> Z -> fnum -> bool.
+  Variable g : fnum -> fnum.
+  Hypothesis Hg : forall m e, frel m e (g (FDec m e)) = true.
+
+  Lemma xattrs_rel l k os ans cs : xattrs l k = Ok (os, ans, cs) ->
+    forall2b (an_ok frel) (ans_of l) (map (map_oan g) ans) = true /\
+    forall2b ctrl_ok (ctrls_of l) cs = true /\
+    forall2b opt_ok (opts_of l) os = true /\
+    exists n, map2cat invented (ans_of l) (map (map_oan g) ans) = map auto_name (nseq k n).
+  Proof.
+    intros H. destruct (xattrs_partition _ _ _ _ _ H) as [[k' A] [B C]].
+    destruct (xan_list_good frel g Hg _ _ _ _ A) as [A1 [[n [_ A2]] _]].
+    split; [exact A1|]. split; [exact (traverse_forall2b _ _ xctrl_ok _ _ B)|].
+    split; [exact (traverse_forall2b _ _ xopt_ok _ _ C)|]. exists n. exact A2.
+  Qed.
+End Attrs.
